@@ -681,11 +681,17 @@ func closeToken(idx, count, cpos, match int, pos map[int]int, line []rune, split
 
 // newlines gives the indexes of all newline characters in the line.
 func (l *Line) newlines() [][]int {
-	line := string(*l)
-	line += string(inputrc.Newline)
-	nl := regexp.MustCompile(string(inputrc.Newline))
+	var newlines [][]int
 
-	return nl.FindAllStringIndex(line, -1)
+	// Positions are indexes in the line, that is rune counts: the byte
+	// offsets of the string form differ as soon as a character is multibyte.
+	for pos, char := range *l {
+		if char == inputrc.Newline {
+			newlines = append(newlines, []int{pos, pos + 1})
+		}
+	}
+
+	return append(newlines, []int{l.Len(), l.Len() + 1})
 }
 
 // returns bpos, epos ordered and true if either is valid.
